@@ -273,7 +273,7 @@ package tls
 //@ spec chmMap(p, P) = (P == nil <==> p == nil) && (P != nil ==> p.original == P.Raw && p.vers == P.Vers && p.random == P.Random && p.sessionId == P.SessionId && p.cipherSuites == P.CipherSuites && p.compressionMethods == P.CompressionMethods && p.serverName == P.ServerName && p.ocspStapling == P.OcspStapling && p.supportedCurves == P.SupportedCurves && p.supportedPoints == P.SupportedPoints && p.ticketSupported == P.TicketSupported && p.sessionTicket == P.SessionTicket && p.supportedSignatureAlgorithms == P.SupportedSignatureAlgorithms && p.supportedSignatureAlgorithmsCert == P.SupportedSignatureAlgorithmsCert && p.secureRenegotiationSupported == P.SecureRenegotiationSupported && p.secureRenegotiation == P.SecureRenegotiation && p.extendedMasterSecret == P.Ems && p.alpnProtocols == P.AlpnProtocols && p.scts == P.Scts && p.supportedVersions == P.SupportedVersions && p.cookie == P.Cookie && ksMap(p.keyShares, P.KeyShares) && p.earlyData == P.EarlyData && p.pskModes == P.PskModes && pskMap(p.pskIdentities, P.PskIdentities) && p.pskBinders == P.PskBinders && p.quicTransportParameters == P.QuicTransportParameters && p.encryptedClientHello == P.encryptedClientHello && p.nextProtoNeg == P.NextProtoNeg)
 
 //@ func (*PubClientHelloMsg).getPrivatePtr
-//@   property C31 C11
+//@   property C31 C11 C01
 //@   modifies chm.cachedPrivateHello
 //@   ensures nil: chm == nil ==> ret == nil
 //@   ensures fresh: chm != nil ==> ret != nil && fresh(ret)
@@ -638,7 +638,7 @@ package tls
 //@   modifies nothing
 
 //@ func (*clientHelloMsg).marshal
-//@   property C31
+//@   property C31 C01
 //@   requires m != nil
 //@   modifies nothing
 //@   ensures cached: !isnil(m.original) ==> ret0 == m.original && ret1 == nil
